@@ -468,6 +468,7 @@ type cacheAd struct {
 	kc   codec[string]
 	ss   *sinkSet
 	cb   cache.EvictedCallback
+	cb2  cache.EvictedCallback
 }
 
 func (a *cacheAd) Spec() Spec                { return a.spec }
@@ -475,13 +476,16 @@ func (a *cacheAd) Release()                  { a.c = nil }
 func (a *cacheAd) Table() TableStats          { return TableStats{} }
 func (a *cacheAd) Stats() (int64, int64, int) { return -1, -1, -1 }
 
-func (a *cacheAd) mkCallback() cache.EvictedCallback {
+func (a *cacheAd) mkCallback(second bool) cache.EvictedCallback {
 	ss := a.ss
 	return func(k string, v interface{}) {
 		ki := a.kc.from(k)
 		vi := toInt(v)
 		if s := ss.sinks[tid()]; s != nil {
 			s.Ev = append(s.Ev, model.KV{K: ki, V: vi})
+			if second {
+				s.EvB++
+			}
 			if (a.spec.Reenter == 1 || a.spec.Reenter == 3) && a.c != nil {
 				if g, ok := a.c.Get(k); ok && toInt(g) == vi {
 					s.Note += fmt.Sprintf("callback for (k%d,%d): value still retrievable; ", ki, vi)
@@ -554,10 +558,6 @@ func (a *cacheAd) Do(o *model.Op) (r model.Res) {
 	case model.CDeleteExpired:
 		c.DeleteExpired()
 	case model.CRange:
-		if o.N < 0 {
-			c.Range(nil) // a nil visitor is ignored
-			break
-		}
 		n := 0
 		c.Range(func(k string, v interface{}) bool {
 			r.Vis = append(r.Vis, model.KV{K: a.kc.from(k), V: toInt(v)})
@@ -587,12 +587,14 @@ func (a *cacheAd) Do(o *model.Op) (r model.Res) {
 	case model.CSetDefaultExp:
 		c.SetDefaultExpiration(d)
 	case model.CSetCallback:
-		if o.On {
+		if o.On && o.N == 2 {
+			c.SetEvictedCallback(a.cb2)
+		} else if o.On {
 			c.SetEvictedCallback(a.cb)
 		} else {
 			c.SetEvictedCallback(nil)
 		}
-		r.OK = c.EvictedCallback() != nil // checked by the sequential engine only (another thread may swap it concurrently)
+		r.OK = c.EvictedCallback() != nil // informational only: no property pins the getter
 	case model.HBulkSet:
 		for i := 0; i < o.N; i++ {
 			c.Set(a.kc.to(o.Key+i), o.Val+i, d)
@@ -617,7 +619,8 @@ func (a *cacheAd) Do(o *model.Op) (r model.Res) {
 
 func newCache(s Spec) API {
 	a := &cacheAd{spec: s, kc: strCodecAlias(s.Alias), ss: &sinkSet{}}
-	a.cb = a.mkCallback()
+	a.cb = a.mkCallback(false)
+	a.cb2 = a.mkCallback(true)
 	var cb cache.EvictedCallback
 	if s.CB {
 		cb = a.cb
@@ -654,6 +657,7 @@ type cacheOfAd[K comparable] struct {
 	kc   codec[K]
 	ss   *sinkSet
 	cb   cache.EvictedCallbackOf[K, int]
+	cb2  cache.EvictedCallbackOf[K, int]
 }
 
 func (a *cacheOfAd[K]) Spec() Spec                { return a.spec }
@@ -661,12 +665,15 @@ func (a *cacheOfAd[K]) Release()                  { a.c = nil }
 func (a *cacheOfAd[K]) Table() TableStats          { return TableStats{} }
 func (a *cacheOfAd[K]) Stats() (int64, int64, int) { return -1, -1, -1 }
 
-func (a *cacheOfAd[K]) mkCallback() cache.EvictedCallbackOf[K, int] {
+func (a *cacheOfAd[K]) mkCallback(second bool) cache.EvictedCallbackOf[K, int] {
 	ss := a.ss
 	return func(k K, v int) {
 		ki := a.kc.from(k)
 		if s := ss.sinks[tid()]; s != nil {
 			s.Ev = append(s.Ev, model.KV{K: ki, V: v})
+			if second {
+				s.EvB++
+			}
 			if (a.spec.Reenter == 1 || a.spec.Reenter == 3) && a.c != nil {
 				if g, ok := a.c.Get(k); ok && g == v {
 					s.Note += fmt.Sprintf("callback for (k%d,%d): value still retrievable; ", ki, v)
@@ -733,10 +740,6 @@ func (a *cacheOfAd[K]) Do(o *model.Op) (r model.Res) {
 	case model.CDeleteExpired:
 		c.DeleteExpired()
 	case model.CRange:
-		if o.N < 0 {
-			c.Range(nil) // a nil visitor is ignored
-			break
-		}
 		n := 0
 		c.Range(func(k K, v int) bool {
 			r.Vis = append(r.Vis, model.KV{K: a.kc.from(k), V: v})
@@ -766,12 +769,14 @@ func (a *cacheOfAd[K]) Do(o *model.Op) (r model.Res) {
 	case model.CSetDefaultExp:
 		c.SetDefaultExpiration(d)
 	case model.CSetCallback:
-		if o.On {
+		if o.On && o.N == 2 {
+			c.SetEvictedCallback(a.cb2)
+		} else if o.On {
 			c.SetEvictedCallback(a.cb)
 		} else {
 			c.SetEvictedCallback(nil)
 		}
-		r.OK = c.EvictedCallback() != nil // checked by the sequential engine only (another thread may swap it concurrently)
+		r.OK = c.EvictedCallback() != nil // informational only: no property pins the getter
 	case model.HBulkSet:
 		for i := 0; i < o.N; i++ {
 			c.Set(a.kc.to(o.Key+i), o.Val+i, d)
@@ -796,7 +801,8 @@ func (a *cacheOfAd[K]) Do(o *model.Op) (r model.Res) {
 
 func newCacheOf[K comparable](s Spec, kc codec[K]) API {
 	a := &cacheOfAd[K]{spec: s, kc: kc, ss: &sinkSet{}}
-	a.cb = a.mkCallback()
+	a.cb = a.mkCallback(false)
+	a.cb2 = a.mkCallback(true)
 	var cb cache.EvictedCallbackOf[K, int]
 	if s.CB {
 		cb = a.cb
